@@ -17,7 +17,7 @@ type GenOpts struct {
 	LongComments bool
 }
 
-var labelPool = []string{"l0", "loop", "done", "next", "L4", "skip_5", "a", "zz_end", "", ".loc"} // the empty string is a label name like any other
+var labelPool = []string{"l0", "loop", "done", "next", "L4", "skip_5", "a", "zz_end", "", ".loc", "twelve_chars", "thirteen_char", "a_label_name_wider_than_any_listing_column"} // the empty string is a label name like any other
 
 var dataLens = []int{0, 1, 2, 15, 16, 17, 31, 32, 33, 47, 48, 49, 64, 65, 80}
 
